@@ -7,6 +7,9 @@ import (
 	"strconv"
 
 	"github.com/dave/dst"
+	"github.com/dave/dst/decorator/resolver"
+	"github.com/dave/dst/decorator/resolver/guess"
+	"github.com/dave/dst/decorator/resolver/simple"
 )
 
 // ---- shared: symbolic import situations --------------------------------------------------------
@@ -65,6 +68,9 @@ func vfImportSpec(tag string, allowC bool) (*dst.ImportSpec, vfSpecDesc) {
 		d.path = "C"
 	}
 	s := &dst.ImportSpec{Path: &dst.BasicLit{Kind: token.STRING, Value: strconv.Quote(d.path)}}
+	if vfChoice(tag+".raw", 2) == 1 {
+		s.Path.Value = "`" + d.path + "`" // import path written as a raw string literal
+	}
 	if d.path != "C" {
 		d.kind = vfChoice(tag+".kind", 4)
 	}
@@ -453,6 +459,7 @@ type vfIdentResolver struct {
 	failAt int
 	calls  *int
 	err    error
+	pkgs   map[string]string // package name in the source -> path (nil: only "a" -> "x.y/a")
 }
 
 func (v vfIdentResolver) ResolveIdent(file *ast.File, parent ast.Node, parentField string, id *ast.Ident) (string, error) {
@@ -462,30 +469,50 @@ func (v vfIdentResolver) ResolveIdent(file *ast.File, parent ast.Node, parentFie
 		return "", v.err
 	}
 	if se, ok := parent.(*ast.SelectorExpr); ok && parentField == "Sel" {
-		if x, ok := se.X.(*ast.Ident); ok && x.Name == "a" {
-			return "x.y/a", nil
+		if x, ok := se.X.(*ast.Ident); ok {
+			if v.pkgs != nil {
+				return v.pkgs[x.Name], nil
+			}
+			if x.Name == "a" {
+				return "x.y/a", nil
+			}
 		}
 	}
 	return "", nil
 }
 
-// vfSelectorFile builds (by restoring a small dst file) a positioned ast file with 1-3 qualified
-// selectors a.N and one plain identifier, registered in a fresh FileSet.
+// vfSelectorFile builds (by restoring a small dst file) a positioned ast file
+//   import "x.y/a"; var u = v0; var v0 = a.N0; var v1 = a.N1 ...; var _ = local
+// with parser-style objects: every v_i has an ast.Object whose Decl is its ValueSpec, and u's value
+// refers to v0 before its declaration, so that decorating u's value decorates v0's declaration through
+// the object link first.
 func vfSelectorFile(n int) (*ast.File, *token.FileSet) {
-	var vals []dst.Expr
-	var names []*dst.Ident
-	for i := 0; i < n; i++ {
-		vals = append(vals, &dst.SelectorExpr{X: &dst.Ident{Name: "a"}, Sel: &dst.Ident{Name: "N" + strconv.Itoa(i)}})
-		names = append(names, &dst.Ident{Name: "_"})
-	}
-	vals = append(vals, &dst.Ident{Name: "local"})
-	names = append(names, &dst.Ident{Name: "_"})
-	f := &dst.File{Name: &dst.Ident{Name: "pkg"}, Decls: []dst.Decl{
+	fwd := &dst.Ident{Name: "v0"}
+	decls := []dst.Decl{
 		&dst.GenDecl{Tok: token.IMPORT, Specs: []dst.Spec{&dst.ImportSpec{Path: &dst.BasicLit{Kind: token.STRING, Value: "\"x.y/a\""}}}},
-		&dst.GenDecl{Tok: token.VAR, Specs: []dst.Spec{&dst.ValueSpec{Names: names, Values: vals}}},
-	}}
+		&dst.GenDecl{Tok: token.VAR, Specs: []dst.Spec{&dst.ValueSpec{Names: []*dst.Ident{{Name: "u"}}, Values: []dst.Expr{fwd}}}},
+	}
+	var specs []*dst.ValueSpec
+	for i := 0; i < n; i++ {
+		sp := &dst.ValueSpec{Names: []*dst.Ident{{Name: "v" + strconv.Itoa(i)}},
+			Values: []dst.Expr{&dst.SelectorExpr{X: &dst.Ident{Name: "a"}, Sel: &dst.Ident{Name: "N" + strconv.Itoa(i)}}}}
+		specs = append(specs, sp)
+		decls = append(decls, &dst.GenDecl{Tok: token.VAR, Specs: []dst.Spec{sp}})
+	}
+	decls = append(decls, &dst.GenDecl{Tok: token.VAR, Specs: []dst.Spec{&dst.ValueSpec{Names: []*dst.Ident{{Name: "_"}}, Values: []dst.Expr{&dst.Ident{Name: "local"}}}}})
+	f := &dst.File{Name: &dst.Ident{Name: "pkg"}, Decls: decls}
 	r := NewRestorer()
 	af, _ := r.RestoreFile(f)
+	af.Scope = ast.NewScope(nil)
+	for i, sp := range specs {
+		asp := r.Ast.Nodes[sp].(*ast.ValueSpec)
+		obj := &ast.Object{Kind: ast.Var, Name: asp.Names[0].Name, Decl: asp}
+		asp.Names[0].Obj = obj
+		af.Scope.Insert(obj)
+		if i == 0 {
+			r.Ast.Nodes[fwd].(*ast.Ident).Obj = obj
+		}
+	}
 	return af, r.Fset
 }
 
@@ -526,5 +553,166 @@ func VerifC17Decorate() {
 	vfAssert(err2 == nil, "retry-ok")
 	if err2 == nil {
 		vfAssert(vfDeepEqual(again, want), "retry-equals-failure-free-run")
+	}
+}
+
+// ---- C16: determinism (map iteration order) and concurrent restores with shared resolvers ---------
+
+// VerifC16Order: updateImports is run twice on clones of one file (2-3 used paths that all need a new
+// import, symbolic package names so that conflicts and renaming occur, 0-1 existing spec, optional
+// alias override): once with maps iterated in insertion order and once with every map iteration order
+// forked over all permutations. Resulting declarations and package names must be identical.
+func VerifC16Order() {
+	names := vfNames()
+	var specs []dst.Spec
+	if vfChoice("nspec", 2) == 1 {
+		s, _ := vfImportSpec("spec0", false)
+		specs = append(specs, s)
+	}
+	var idents []*dst.Ident
+	n := 2 + vfTier()
+	for i := 0; i < n; i++ {
+		idents = append(idents, &dst.Ident{Name: "N", Path: vfPool[i%len(vfPool)]})
+	}
+	file := vfFileWith(specs, idents)
+	twin := dst.Clone(file).(*dst.File)
+	alias := map[string]string{}
+	if vfTier() > 0 && vfChoice("override", 2) == 1 {
+		alias[vfPool[0]] = vfBytes("overrideAlias", 1, "pq")
+		alias[vfPool[1]] = vfBytes("overrideAlias2", 1, "pq")
+	}
+	run := func(f *dst.File) (*FileRestorer, error) {
+		c := 0
+		fr := NewRestorerWithImports(vfLocal, vfResolver{names: names, failAt: -1, calls: &c}).FileRestorer()
+		for k, v := range alias {
+			fr.Alias[k] = v
+		}
+		fr.file = f
+		fr.packageNames = map[string]string{}
+		return fr, fr.updateImports()
+	}
+	r1, e1 := run(file)
+	vfMapOrderFork(true)
+	r2, e2 := run(twin)
+	vfMapOrderFork(false)
+	vfReach("both")
+	vfAssert((e1 == nil) == (e2 == nil), "same-error")
+	vfAssert(vfDeepEqual(file.Decls, twin.Decls), "imports-independent-of-map-order")
+	vfAssert(len(r1.packageNames) == len(r2.packageNames), "package-names-independent-of-map-order")
+	for k, v := range r1.packageNames {
+		vfAssert(r2.packageNames[k] == v, "package-names-independent-of-map-order")
+	}
+}
+
+// VerifC16SharedMaps: two goroutines restore different files with their own restorers that share one
+// read-only package-name map (guess or simple resolver): no data race; results equal the calls alone.
+func VerifC16SharedMaps() {
+	shared := map[string]string{"a": "a", "x.y/b": "b", "c/d": "d"}
+	var res resolver.RestorerResolver
+	if vfChoice("kind", 2) == 0 {
+		res = guess.WithMap(shared)
+	} else {
+		res = simple.New(shared)
+	}
+	mk := func(p string) *dst.File {
+		return vfFileWith(nil, []*dst.Ident{{Name: "N", Path: p}})
+	}
+	f1, f2 := mk("a"), mk("x.y/b")
+	g1, g2 := dst.Clone(f1).(*dst.File), dst.Clone(f2).(*dst.File)
+	var a1, a2 *ast.File
+	var e1, e2 error
+	vfShared(res)
+	vfParallel(func() {
+		a1, e1 = NewRestorerWithImports(vfLocal, res).RestoreFile(f1)
+	}, func() {
+		a2, e2 = NewRestorerWithImports(vfLocal, res).RestoreFile(f2)
+	})
+	vfAssert(vfRaceFree(), "no-data-race")
+	b1, be1 := NewRestorerWithImports(vfLocal, res).RestoreFile(g1)
+	b2, be2 := NewRestorerWithImports(vfLocal, res).RestoreFile(g2)
+	vfAssert(e1 == nil && e2 == nil && be1 == nil && be2 == nil, "no-error")
+	vfAssert(vfDeepEqual(a1, b1) && vfDeepEqual(a2, b2), "result-equals-call-made-alone")
+}
+
+
+// vfWrapInFile places an arbitrary node at a syntactically fitting position of a file.
+func vfWrapInFile(n dst.Node) *dst.File {
+	f := &dst.File{Name: &dst.Ident{Name: "pkg"}}
+	body := func(st dst.Stmt) {
+		f.Decls = append(f.Decls, &dst.FuncDecl{Name: &dst.Ident{Name: "fn"}, Type: &dst.FuncType{Func: true, Params: &dst.FieldList{Opening: true, Closing: true}},
+			Body: &dst.BlockStmt{List: []dst.Stmt{st}}})
+	}
+	switch x := n.(type) {
+	case *dst.File:
+		return x
+	case dst.Decl:
+		f.Decls = append(f.Decls, x)
+	case dst.Stmt:
+		body(x)
+	case dst.Expr:
+		body(&dst.ExprStmt{X: x})
+	case dst.Spec:
+		tok := token.VAR
+		if _, ok := x.(*dst.TypeSpec); ok {
+			tok = token.TYPE
+		}
+		if _, ok := x.(*dst.ImportSpec); ok {
+			tok = token.IMPORT
+		}
+		f.Decls = append(f.Decls, &dst.GenDecl{Tok: tok, Specs: []dst.Spec{x}})
+	case *dst.Field:
+		body(&dst.ExprStmt{X: &dst.FuncLit{Type: &dst.FuncType{Func: true, Params: &dst.FieldList{Opening: true, Closing: true, List: []*dst.Field{x}}}, Body: &dst.BlockStmt{}}})
+	case *dst.FieldList:
+		body(&dst.ExprStmt{X: &dst.FuncLit{Type: &dst.FuncType{Func: true, Params: x}, Body: &dst.BlockStmt{}}})
+	}
+	return f
+}
+
+// C07 per node type: wherever a path-carrying identifier sits - every expression position of every
+// node type - import management finds it: the file gains exactly one import of that path and the
+// identifier is restored as a selector on the name bound by it.
+func vfPerType_C07(typ string) {
+	if typ == "ImportSpec" {
+		return // an import spec has no expression children
+	}
+	g := &vfGen{prefix: "n", depth: 1, listLen: 1, exprPath: "x.y/b"}
+	// the path sits on every expression leaf, or on the leaves of exactly one expression field
+	info := vfNodeInfo[typ]
+	if k := vfChoice("only", len(info.ExprFields)+1); k < len(info.ExprFields) {
+		g.pathField = typ + "." + info.ExprFields[k]
+	}
+	n := g.Node(typ)
+	file := vfWrapInFile(n)
+	var want []*dst.Ident
+	dst.Inspect(file, func(x dst.Node) bool {
+		if id, ok := x.(*dst.Ident); ok && id.Path != "" {
+			want = append(want, id)
+		}
+		return true
+	})
+	calls := 0
+	name := vfBytes("pkgname", 1, "pq")
+	res := NewRestorerWithImports(vfLocal, vfResolver{names: map[string]string{"x.y/b": name}, failAt: -1, calls: &calls})
+	af, err := res.RestoreFile(file)
+	vfAssert(err == nil, "no-error")
+	if err != nil {
+		return
+	}
+	vfReach("restored")
+	imps := vfRestoredImports(af)
+	cnt := 0
+	for _, s := range imps {
+		if s.path == "x.y/b" {
+			cnt++
+			vfAssert(!s.has, "no-alias-needed")
+		}
+	}
+	vfAssert(cnt == vfB2I(len(want) > 0), "used-path-imported-exactly-once")
+	for _, id := range want {
+		se, ok := res.Ast.Nodes[id].(*ast.SelectorExpr)
+		vfAssert(ok, "path-identifier-restored-as-selector")
+		if ok {
+			vfAssert(se.X.(*ast.Ident).Name == name, "selector-uses-bound-name")
+		}
 	}
 }
